@@ -26,20 +26,25 @@ structure Event (α : Type) where
 def normalizeIdx (len : Nat) (i : Int) : Bool × NIdx :=
   (false, .idx (if i < 0 then i + len else i))
 
+/-- The body of `_normalize_slice_or_index` after `index.indices(length)`
+returned `(start, stop, step)` (trait_list_object.py:114-131). -/
+def normalizeCore (len : Nat) (start stop step : Int) : Bool × NIdx :=
+  let rev := decide (step < 0)
+  -- if reversed: start, stop, step = min(stop - step + (start - stop) % step, length), start + 1, -step
+  let start' := if rev then min (stop - step + pymod (start - stop) step) (len : Int) else start
+  let stop' := if rev then start + 1 else stop
+  let step' := if rev then -step else step
+  -- stop -= (stop - start - 1) % step
+  let stop'' := stop' - pymod (stop' - start' - 1) step'
+  if step' = 1 ∨ stop'' - start' ≤ step' then (rev, .idx start')
+  else (rev, .slc start' stop'' step')
+
 /-- `_normalize_slice_or_index(index, length)` for a slice; `none` = the
 ValueError of `slice.indices` on a zero step. -/
 def normalizeSlice (len : Nat) (s : Slice) : Option (Bool × NIdx) :=
   match s.indices len with
   | none => none
-  | some (start, stop, step) =>
-    let rev := decide (step < 0)
-    let start' := if rev then min (stop - step + pymod (start - stop) step) (len : Int) else start
-    let stop' := if rev then start + 1 else stop
-    let step' := if rev then -step else step
-    -- stop -= (stop - start - 1) % step
-    let stop'' := stop' - pymod (stop' - start' - 1) step'
-    if step' = 1 ∨ stop'' - start' ≤ step' then some (rev, .idx start')
-    else some (rev, .slc start' stop'' step')
+  | some (start, stop, step) => some (normalizeCore len start stop step)
 
 /-- The operations of the list interface that `TraitList` overrides. -/
 inductive Op (α : Type) where
@@ -183,6 +188,35 @@ def TraitList.step (E : Env α) (l : List α) : Op α → Except Exc (Out α)
     if l.isEmpty then .ok { items := E.sort l }
     else .ok { items := E.sort l, event := some ⟨.idx 0, l, E.sort l⟩ }
 
+/-- The builtin `list` operation an `Op` stands for, arguments used as given
+(this is what `super().__setitem__` etc. do). -/
+def pyStep (E : Env α) (l : List α) : Op α → Except Exc (List α × Option α)
+  | .setIdx i x => (Py.setIdx l i x).map (·, none)
+  | .setSlice s xs => (Py.setSlice l s xs).map (·, none)
+  | .delIdx i => (Py.delIdx l i).map (·, none)
+  | .delSlice s => (Py.delSlice l s).map (·, none)
+  | .append x => .ok (l ++ [x], none)
+  | .extend xs => .ok (l ++ xs, none)
+  | .iadd xs => .ok (l ++ xs, none)
+  | .imul n => .ok (Py.imul l n, none)
+  | .insert i x => .ok (Py.insert l i x, none)
+  | .pop i => (Py.pop l i).map (fun (x, l') => (l', some x))
+  | .remove x => (Py.remove E.eq l x).map (·, none)
+  | .clear => .ok ([], none)
+  | .reverse => .ok (l.reverse, none)
+  | .sort => .ok (E.sort l, none)
+
+/-- The same operation with its items passed through the item validator
+("the same operations on the validated items"). -/
+def validateOp (E : Env α) : Op α → Except Exc (Op α)
+  | .setIdx i x => (E.v 0 x).map (.setIdx i)
+  | .setSlice s xs => (valAll E.v 0 xs).map (.setSlice s)
+  | .append x => (E.v 0 x).map .append
+  | .extend xs => (valAll E.v 0 xs).map .extend
+  | .iadd xs => (valAll E.v 0 xs).map .iadd
+  | .insert i x => (E.v 0 x).map (.insert i)
+  | op => .ok op
+
 /-- Specification of "replace, in a snapshot taken before the operation, the
 removed items at `index` by the added items" (property C05).  For an integer
 index this is Python's `snap[n:n+len(removed)] = added`; for a slice index it is
@@ -196,6 +230,21 @@ def replay (l : List α) (e : Event α) : Option (List α) :=
   | .slc a b k =>
     if e.added.isEmpty then (Py.delSlice l ⟨some a, some b, some k⟩).toOption
     else (Py.setSlice l ⟨some a, some b, some k⟩ e.added).toOption
+
+/-- The normal form the property demands of an event, relative to the
+contents `l` before the operation: an integer index lies in `0..len` and the
+removed items are exactly the items found there; a slice index has
+`0 ≤ start < stop ≤ len`, `step ≥ 2`, selects exactly the removed items, and
+the added items (if any) are as many as the removed ones. -/
+def NormalForm (l : List α) (e : Event α) : Prop :=
+  match e.index with
+  | .idx n =>
+    0 ≤ n ∧ n + e.removed.length ≤ l.length ∧
+      e.removed = (l.drop n.toNat).take e.removed.length
+  | .slc a b k =>
+    0 ≤ a ∧ a < b ∧ b ≤ l.length ∧ 2 ≤ k ∧
+      Py.getSlice l ⟨some a, some b, some k⟩ = .ok e.removed ∧
+      (e.added = [] ∨ e.added.length = e.removed.length)
 
 /-- `TraitList(iterable, item_validator=v)`. -/
 def TraitList.init (E : Env α) (xs : List α) : Except Exc (List α) := valAll E.v 0 xs
